@@ -14,6 +14,9 @@ CONSTANTS
   R2S <- R2Sdef_dev_cylp_closed
   ZStep = 1
   CentralRule = "closed"
+  SpanHandling = "central"
+  ZWeight = "count"
+  Reading = "cells"
   SpanRule = "whole"
 INVARIANT SingleCorrect
 INVARIANT PeriodicCorrect
